@@ -3,10 +3,12 @@
 R1 who-may-touch-links, R2 effect contracts of the mutators, R3 Err => unchanged.
 """
 from ..mir import Callee, Resolver, fmt, literals, strip_sites, walk, ref_kind, EXIT
+from . import helpers
 from ..effects import assigns, mut_calls
 
 LEVEL = 'proof'
 RULES = {
+    'C12.R4': helpers.RULE_TEXT,
     'C12.R1': 'only impl Tree (and TreeNode::new) write TreeNode.{parent,children,isleaf}, Tree.{arena,root}, or build a TreeNode',
     'C12.R2': 'every &mut self method of Tree with a link/arena effect instantiates exactly one effect contract '
               '(ADD-ROOT, ATTACH, DETACH, CLEAR-DESC, SPLICE, SET-VALUE, accessor) with consistent keys and guards',
@@ -15,7 +17,7 @@ RULES = {
 WITNESSES = ['C12ArenaIsPrivate', 'C12RootIsPrivate']  # thorough tier: compile_fail witnesses in /verif/witness
 CONTROL_REV = '078b142'  # thorough tier: the rules must still report the defects found (and since fixed) on the original tree
 CONTROLS = [('C12.R3', 'Tree::add_child_node#Err(ChildExists)-after-insert'), ('C12.R3', 'Tree::add_child_node#Err(ChildExists)-after-set:isleaf')]
-FLOORS = {'C12.R1': 10, 'C12.R2': 13, 'C12.R3': 5}
+FLOORS = {'C12.R4': 21, 'C12.R1': 10, 'C12.R2': 13, 'C12.R3': 5}
 EXPLANATION = (
     'Each of the six mutators performs a fixed set of paired link updates; the contracts below each preserve '
     '{links mirror, isleaf <=> no children, one parentless root, stored = reachable, indices/values of untouched '
@@ -691,6 +693,7 @@ def _has_effects(F, b):
 
 
 def run(ctx):
+    helpers.run_for(ctx)
     r1(ctx)
     r2(ctx)
     r3(ctx)
